@@ -121,9 +121,12 @@ def _cap_variants(side, is_buy, cap_bound):
     return out
 
 
-def trade_outcomes(side, is_buy, request, token, mode, limit=None, cap_bound=None):
+def trade_outcomes(side, is_buy, request, token, mode, limit=None, cap_bound=None, inexact=False):
     """All outcomes the rules allow for one order against one displayed book side (holding / cash are checked by
-    the caller).  mode: "market" | "limit".  Returns list of Reject / Fill."""
+    the caller).  mode: "market" | "limit".  Returns list of Reject / Fill.
+    inexact: the side was already reduced by an earlier fill in this status; the displayed sizes are then results of
+    binary float subtraction (e.g. 220.763 - 75.763 displays 144.99999999999997), so exhausting a level exactly is a
+    tie even when the exact remainder is a whole number."""
     step = unit(CONFIG[token]["step_exp"])
     out = []
     if request < step:
@@ -155,14 +158,14 @@ def trade_outcomes(side, is_buy, request, token, mode, limit=None, cap_bound=Non
                 p, s = side[i]
                 if q > s + SIZE_TOL:
                     res = [Reject("beyond_depth")]
-                elif q > s or (s != int(s) and s - q <= SIZE_TOL):
+                elif q > s or ((inexact or s != int(s)) and s - q <= SIZE_TOL):
                     # a fractional displayed size is a binary float: exhausting it exactly is a tie
                     res = [Reject("beyond_depth"), Fill(q, [(i, p, q)])]
                 else:
                     res = [Fill(q, [(i, p, q)])]
         else:
             depth = sum((side[i][1] for i in idxs), Fraction(0))
-            fractional = any(side[i][1] != int(side[i][1]) for i in idxs)
+            fractional = inexact or any(side[i][1] != int(side[i][1]) for i in idxs)
             fills, left = [], q
             for i in idxs:
                 p, s = side[i]
